@@ -123,6 +123,7 @@ class Ctx:
         self.counter = 0
         self.solver = z3.Solver()
         self.solver.set("rlimit", rlimit)
+        self.solver.set("timeout", 20000)
         self.dead = False
         self.defs = set()
         self.full_feasibility = True
